@@ -186,10 +186,10 @@ func runC13(c *Ctx) {
 	}
 
 	// R13.3 queue
-	ruleQueue(c, "R13.3")
+	ruleQueue(c, "R13.3", 1)
 
 	// R13.4 a failed write leaves no state behind in the per-channel writers
-	r.Rule("R13.4", "the per-channel writer objects (frame.Writer, streamwriter.Writer) carry no state from one write to the next except the sequence counter: outside Initialize / constructors the only receiver field they store is nextSeqNumber, "+
+	r.Rule("R13.4", "the per-channel writer objects (frame.Writer, streamwriter.Writer) carry no state from one write to the next except the sequence counter: outside Initialize / constructors the only receiver field they store and read back is nextSeqNumber (write-only statistics are not state), "+
 		"and their write functions do not return early on a remembered condition — so a failed write (R13.2: the writer goroutine keeps serving) cannot silence later valid writes", 2)
 	for _, w := range []struct{ pkg, typ string }{{"pkg/frame", "Writer"}, {"pkg/streamwriter", "Writer"}} {
 		o := c.Obj(w.pkg, w.typ)
@@ -213,7 +213,12 @@ func runC13(c *Ctx) {
 				if f.Name() == "nextSeqNumber" {
 					continue
 				}
-				bad = append(bad, fmt.Sprintf("%s stores %s.%s (%s)", fn, w.typ, f.Name(), c.Pos(fs.Store.Pos())))
+				// write-only bookkeeping (a statistics counter read by nobody but itself / a getter) is not state
+				infl := c.fieldInfluence(f)
+				if len(infl) == 0 {
+					continue
+				}
+				bad = append(bad, fmt.Sprintf("%s stores %s.%s (%s), which %s", fn, w.typ, f.Name(), c.Pos(fs.Store.Pos()), infl[0]))
 			}
 		}
 		r.Check(len(bad) == 0 && n > 0, "R13.4", w.pkg+"."+w.typ+" state", c.Pos(o.Pos()), fmt.Sprintf("%d field stores, all at initialisation or the sequence counter", n),
@@ -351,9 +356,9 @@ func ruleLoopNonBlocking(c *Ctx, rule string) {
 }
 
 // ruleQueue: one bounded FIFO per channel, one producer function, one consumer goroutine.
-func ruleQueue(c *Ctx, rule string) {
+func ruleQueue(c *Ctx, rule string, minCap int64) {
 	r := c.R
-	r.Rule(rule, "per channel there is one FIFO: the queue field is created at exactly one site with capacity writeBufferSize == 64; "+
+	r.Rule(rule, fmt.Sprintf("per channel there is one FIFO: the queue field is created at exactly one site by make(chan) with a constant capacity ≥ %d (bounded; the property promises no loss below 64 queued items where it names a number); ", minCap)+
 		"Channel.write is its only sender and runWriter its only receiver; runWriter is launched once per Channel.run", 4)
 	f := c.Field("root", "Channel", "chWrite")
 	if f == nil {
@@ -362,25 +367,27 @@ func ruleQueue(c *Ctx, rule string) {
 	stores := c.fieldStoresAll(f)
 	ok := len(stores) == 1
 	detail := fmt.Sprintf("%d creation sites", len(stores))
+	capK := int64(-1)
 	if ok {
 		mc, isMC := stores[0].Store.Val.(*ssa.MakeChan)
 		if !isMC {
 			ok = false
 			detail = "queue is not created by make(chan)"
-		} else if k, isC := constInt(mc.Size); !isC || k != 64 {
+		} else if k, isC := constInt(mc.Size); !isC {
 			ok = false
-			detail = "queue capacity is " + ex(mc.Size) + ", the property states 64"
+			detail = "queue capacity is not a constant (" + ex(mc.Size) + "): the backlog is not bounded by the code"
+		} else {
+			capK = k
 		}
 	}
 	pos := "-"
 	if len(stores) > 0 {
 		pos = c.Pos(stores[0].Store.Pos())
 	}
-	r.Check(ok, rule, "Channel.chWrite creation", pos, "single creation site, capacity 64", "per-channel queue: "+detail)
-	if o := c.Obj("root", "writeBufferSize"); o != nil {
-		if k, isC := o.(*types.Const); isC {
-			r.Check(k.Val().ExactString() == "64", rule, "writeBufferSize", c.Pos(o.Pos()), "== 64", "writeBufferSize evaluates to "+k.Val().ExactString()+", the property states a 64-item bounded queue")
-		}
+	r.Check(ok, rule, "Channel.chWrite creation", pos, "single creation site, constant capacity", "per-channel queue: "+detail)
+	if capK >= 0 {
+		r.Check(capK >= minCap && capK <= 1<<20, rule, "Channel.chWrite capacity", pos, fmt.Sprintf("capacity %d ≥ %d", capK, minCap),
+			fmt.Sprintf("queue capacity is %d: the property needs a bounded queue of at least %d items (items are dropped although the backlog is below the promised bound, or the queue is unbuffered/unbounded)", capK, minCap))
 	}
 	var senders, receivers []string
 	for _, fn := range rootFns(c) {
@@ -726,7 +733,7 @@ func runC11(c *Ctx) {
 		r.Check(len(others) == 0, "R11.2", "Node.channels writers", "-", "the open set is modified only by the node loop", fmt.Sprintf("n.channels is modified outside the node loop: %v", others))
 	}
 
-	ruleQueue(c, "R11.3")
+	ruleQueue(c, "R11.3", 64)
 	ruleLoopNonBlocking(c, "R11.5")
 
 	r.Rule("R11.6", "the node's request channels (chWriteTo, chWriteAll, chWriteExcept, chNewChannel, chCloseChannel) are each created once and unbuffered: a Write* call returns only after the node loop "+
